@@ -116,6 +116,9 @@ class C04(Check):
                 for n in ((3, 10) if self.tier == "quick" else (3, 5, 10)):
                     d = ("set", m[0], m[1], n)
                     yield (str(d), (wk, build, planted, devs + (d,), ms))
+                    if ms == 1 and n == 10 and (m[0] + len(planted)) % 3 == 0:
+                        # tied refinements (which copy receives the variant): ask for up to three of them
+                        yield (str(d) + " ms=3", (wk, build, planted, devs + (d,), 3))
         small_world = wk[0] == "toy" or wk.table == "small"
         if small_world and "phase" not in kinds:
             cons = sorted(self._sites(gene, planted) | {(d[1], d[2]) for d in devs if d[0] == "set"})
